@@ -113,6 +113,10 @@ fn cmd_annexb(args: &[&str], out: &mut Vec<String>) {
     for op in args.get(0).copied().unwrap_or("").split(',').filter(|s| !s.is_empty()) {
         if op == "r" {
             r.reset();
+        } else if op == "n" {
+            // a freshly constructed reader continues the same trace
+            let t = std::mem::take(&mut r.fragment_handler_mut().0);
+            r = AnnexBReader::for_fragment_handler(Trace(t));
         } else if let Some(h) = op.strip_prefix('p') {
             r.push(&unhex(h));
         } else {
@@ -124,11 +128,19 @@ fn cmd_annexb(args: &[&str], out: &mut Vec<String>) {
 }
 
 fn run_rbsp_ops<R: BufRead>(mut r: ByteReader<R>, ops: &str, out: &mut Vec<String>) {
+    // bytes returned by the last fill_buf and not consumed since: consume stays within its precondition
+    let mut avail = 0usize;
     for op in ops.split(',').filter(|s| !s.is_empty()) {
         if op == "f" {
             match r.fill_buf() {
-                Ok(b) => out.push(format!("f:{}", hex(b))),
-                Err(e) => out.push(format!("E:{}", iokind(&e))),
+                Ok(b) => {
+                    avail = b.len();
+                    out.push(format!("f:{}", hex(b)))
+                }
+                Err(e) => {
+                    avail = 0;
+                    out.push(format!("E:{}", iokind(&e)))
+                }
             }
         } else if op == "e" {
             // read_to_end by hand so that the partial data is visible on error
@@ -144,6 +156,7 @@ fn run_rbsp_ops<R: BufRead>(mut r: ByteReader<R>, ops: &str, out: &mut Vec<Strin
                     Err(e) => break Some(iokind(&e)),
                 }
             };
+            avail = 0;
             match err {
                 None => out.push(format!("e:{}", hex(&acc))),
                 Some(k) => out.push(format!("e:{}!{}", hex(&acc), k)),
@@ -151,14 +164,16 @@ fn run_rbsp_ops<R: BufRead>(mut r: ByteReader<R>, ops: &str, out: &mut Vec<Strin
         } else if let Some(n) = op.strip_prefix('r') {
             let n: usize = n.parse().unwrap();
             let mut buf = vec![0u8; n];
+            avail = 0;
             match r.read(&mut buf) {
                 Ok(k) => out.push(format!("r:{}", hex(&buf[..k]))),
                 Err(e) => out.push(format!("E:{}", iokind(&e))),
             }
         } else if let Some(n) = op.strip_prefix('c') {
-            let n: usize = n.parse().unwrap();
+            let n: usize = std::cmp::min(n.parse().unwrap(), avail);
+            avail -= n;
             r.consume(n);
-            out.push("c".into());
+            out.push(format!("c{}", n));
         } else {
             panic!("bad rbsp op {}", op);
         }
@@ -301,7 +316,7 @@ fn cmd_accum(args: &[&str], out: &mut Vec<String>) {
                 NalInterest::Buffer
             }
         });
-        for f in frags.split(',').filter(|s| !s.is_empty()) {
+        for f in frags.split(',').filter(|s| !s.is_empty() && *s != "-") {
             let (bufs, end) = f.split_once(';').unwrap();
             let bufs: Vec<Vec<u8>> = bufs.split('/').filter(|s| !s.is_empty()).map(unhex).collect();
             let refs: Vec<&[u8]> = bufs.iter().map(|b| &b[..]).collect();
